@@ -851,7 +851,8 @@ def evaluate__replace(self: XPathFunction, context: ta.ContextType = None) -> st
                 if '$%d' % g in replacement:
                     replacement = re.sub(r'(?<!\\)\$%d' % g, r'\\g<%d>' % g, replacement)
 
-            return re_pattern.sub(replacement, input_string).replace('\\$', '$')
+            replacement = replacement.replace('\\$', '$')
+            return re_pattern.sub(replacement, input_string)
 
 
 @method(function('tokenize', nargs=(1, 3),
